@@ -382,7 +382,7 @@ def _rx_sweep_traces(rng, kind, quick, only=None):
 
     if only == "gap-after":
         st = RxStim(rng, mg, device)
-        for d in (range(0, 16, 3) if quick and kind in RX_LS_KINDS else range(0, 16)):
+        for d in (range(0, 16, 3) if quick else range(0, 16)):
             st.packet(H.data_bytes("DATA0", payload(2)), info={"what": "gap-after-sweep"})
             st.idle(mg + d)
             st.packet(H.data_bytes("DATA1", payload(d % 4)), tail=d % 2, info={"what": "gap-after-sweep"})
@@ -462,7 +462,7 @@ def _rx_ignored_head_traces(rng, kind, quick):
                 patterns += [[0] * k + [1] + [0] * (nb - k - 1) for k in range(2, nb)]
             else:
                 k = rng.randrange(1, nb)
-                patterns.append([0] * k + [2] + [0] * (nb - k - 1))
+                patterns[2] = [0] * k + [2] + [0] * (nb - k - 1) if idx % 2 else patterns[2]
             for gaps in patterns:
                 st.packet(octets, gaps=gaps, tail=(idx + len(gaps)) % 2, info={"what": "ignored-head+data-tail"})
                 st.gap()
@@ -594,7 +594,7 @@ def check_C02(rep):
     sim_cfg = tlc.render_cfg(_cfg("MCDataRx_sim.cfg.tmpl"),
                              {"BaseBytes": TlaSet([0xC3, 0x4B, 0x87, 0x0F, 0xD2, 0x43, 0xE1, 0x00, 0x01, 0x80, 0xFF]),
                               "MaxLen": 9, "MaxPkts": 5, "MaxResets": 0, "StrobeWin": 3, "RfrWin": 24, "MinGap": 14})
-    behs = tlc.simulate(SPEC_DIR, "MCDataRx", sim_cfg, num=25 if quick else 200, depth=160, seed=rep.seed, timeout=1200)
+    behs = tlc.simulate(SPEC_DIR, "MCDataRx", sim_cfg, num=12 if quick else 200, depth=160, seed=rep.seed, timeout=1200)
     for b in behs:
         cyc = [dict(st["in"]) for _, st in b[1:]]
         cyc += [{"active": False, "valid": False, "data": 0}] * 110
@@ -907,7 +907,8 @@ def check_C03(rep):
     rep.assume("tx_data is only constrained in cycles where tx_valid and tx_ready are both high")
 
     # 1. exhaustive exploration of the specification
-    runs = [({"Data": TlaSet([0, 0x81]), "Pids": TlaSet([2]), "MaxLen": 3, "MaxReq": 2, "MaxStall": 1, "MaxResets": 1, "ProgWin": 2})]
+    runs = [{"Data": TlaSet([0, 0x81]), "Pids": TlaSet([2]), "MaxLen": 3, "MaxReq": 2, "MaxStall": 1, "MaxResets": 0, "ProgWin": 2},
+            {"Data": TlaSet([0x81]), "Pids": TlaSet([1, 2]), "MaxLen": 2, "MaxReq": 1, "MaxStall": 1, "MaxResets": 1, "ProgWin": 2}]
     if not quick:
         runs = [{"Data": TlaSet([0, 1, 0x80, 0xFF]), "Pids": TlaSet([0, 3]), "MaxLen": 3, "MaxReq": 1, "MaxStall": 2, "MaxResets": 1, "ProgWin": 2},
                 {"Data": TlaSet([0, 0x81]), "Pids": TlaSet([0, 1, 2, 3]), "MaxLen": 4, "MaxReq": 2, "MaxStall": 1, "MaxResets": 0, "ProgWin": 2}]
@@ -1277,7 +1278,7 @@ def check_C28(rep):
     # 1. exhaustive exploration of the specification
     runs = [({"Data": TlaSet([0]), "MaxLen": 2, "MaxPkts": 1, "Strobes": TlaSet(["c", "x"]), "MaxResets": 1, "OutWin": 2,
               "StrobeWin": 3, "MinGap": 4}, ()),
-            ({"Data": TlaSet([0, 1]), "MaxLen": 3, "MaxPkts": 2, "Strobes": TlaSet(["c"]), "MaxResets": 0, "OutWin": 2, "StrobeWin": 3,
+            ({"Data": TlaSet([0, 1]), "MaxLen": 2, "MaxPkts": 2, "Strobes": TlaSet(["c"]), "MaxResets": 0, "OutWin": 2, "StrobeWin": 3,
               "MinGap": 4}, ("InvalidOut", "DomainReset"))]
     if not quick:
         runs = [({"Data": TlaSet([0, 1]), "MaxLen": 3, "MaxPkts": 2, "Strobes": TlaSet(["c", "x"]), "MaxResets": 1, "OutWin": 2,
@@ -1296,7 +1297,8 @@ def check_C28(rep):
     sim_cfg = tlc.render_cfg(_cfg("MCOutBoundary_sim.cfg.tmpl"),
                              {"Data": TlaSet([0, 1, 0x80, 0xFF]), "MaxLen": 6, "MaxPkts": 5, "Strobes": TlaSet(["c", "x"]),
                               "MaxResets": 0, "OutWin": OB_CONSTS["OutWin"], "StrobeWin": OB_CONSTS["StrobeWin"], "MinGap": OB_CONSTS["MinGap"]})
-    behs = tlc.simulate(SPEC_DIR, "MCOutBoundary", sim_cfg, num=40 if quick else 400, depth=120, seed=rep.seed, timeout=1200)
+    behs = tlc.simulate(SPEC_DIR, "MCOutBoundary", sim_cfg, num=15 if quick else 400, depth=80 if quick else 120, seed=rep.seed,
+                        timeout=1200)
     for b in behs:
         cyc = [{"iv": st["in"]["v"], "inx": st["in"]["n"], "ip": st["in"]["p"], "ic": st["in"]["c"], "ix": st["in"]["x"]}
                for _, st in b[1:]]
@@ -1305,7 +1307,7 @@ def check_C28(rep):
             cyc.append({"iv": 1, "inx": 1, "ip": 0x77, "ic": 0, "ix": 0})
         cyc += [{"iv": 0, "inx": 0, "ip": 0, "ic": 0, "ix": 0}] * 8
         jobs.append((cyc, "tlc-simulate", None))
-    for t in range(12 if quick else 150):
+    for t in range(8 if quick else 150):
         cyc, meta = _ob_random_trace(rng, 25)
         jobs.append((cyc, "random", meta))
     # every strobe placement x every short length, no gaps / gaps
